@@ -234,7 +234,7 @@ def _doc_closure_term(x: pz.SetBV):
 
 def _translate_valid(inc, exc):
     env = {
-        'cls': pz.Record({
+        'cls': pz.ClassRecord(M, {
             '_validate_include': lambda x: x,    # identity on sets: the shapes are C11.d's (E1) job
             '_validate_exclude': lambda x: x,
             'nodes': lambda cat: pz.SetBV.of(M.nodes(cat), CATS),   # live: the real nodes() run per concrete category
@@ -250,7 +250,7 @@ def _translate_valid(inc, exc):
 
 def _translate_match(cat, inc, exc):
     env = {
-        'cls': pz.Record({
+        'cls': pz.ClassRecord(M, {
             'nodes': lambda c: pz.SetBV.of(M.nodes(c), CATS),
             'leaves': lambda c: pz.SetBV.of(M.leaves(c), CATS),        # live tree queries on the concrete category: a _match written
             'children': lambda c: pz.SetBV.of(M.children(c), CATS),    # against any of them stays inside the translatable subset
